@@ -318,16 +318,21 @@ def check_anchor_names(ctx, module):
         return
     have = {}
     for fn in ctx.fb.all_fns():
-        have.setdefault(fn.name, []).append((fn.record or "") + " " + (fn.qname or ""))
+        have.setdefault(fn.name, []).extend([fn.record or "", (fn.qname or "").rsplit("::", 1)[0]])
     for rname, rec in ctx.fb.records().items():
         for m in rec.get("methods", []):
             nm = m.get("name") if isinstance(m, dict) else m
             have.setdefault(nm, []).append(rname)
+        for f in rec.get("fields", []):
+            have.setdefault(f.get("name"), []).append(rname)     # data members are anchors too
     gone = []
-    for name, rec_re in sorted(anchors.items()):
-        rx = re.compile(rec_re) if rec_re else None
-        if not any(rx is None or rx.search(w) for w in have.get(name, [])):
-            gone.append("%s (of %s)" % (name, rec_re or "any class"))
+    for name, rec_res in sorted(anchors.items()):
+        if not isinstance(rec_res, (list, tuple)):
+            rec_res = [rec_res]
+        for rec_re in rec_res:
+            rx = re.compile(rec_re) if rec_re else None
+            if not any(rx is None or rx.search(w) for w in have.get(name, [])):
+                gone.append("%s (of %s)" % (name, rec_re or "any class"))
     if gone:
         raise AnalysisBroken("function(s) the rules are anchored on no longer exist (renamed or removed), cannot decide: %s" % ", ".join(gone))
 
